@@ -426,6 +426,68 @@ func signOpen(text string, sids, vids []string) (string, string) {
 	return "", "not-opened"
 }
 
+// coSign: a note that already carries signatures (opened with V1 after signing with S1) is signed again
+// with S2. Documented: the new signatures follow the existing ones (Sigs, then UnverifiedSigs), and an
+// existing signature is elided exactly when one of the new signers uses the same key (name and hash).
+func coSign(text string, s1, s2, v1, v2 []string) (string, string) {
+	var ss1, ss2 []note.Signer
+	for _, id := range s1 {
+		ss1 = append(ss1, theKeys()[id].signer)
+	}
+	for _, id := range s2 {
+		ss2 = append(ss2, theKeys()[id].signer)
+	}
+	msg1, err := note.Sign(&note.Note{Text: text}, ss1...)
+	if err != nil {
+		return "first Sign failed: " + err.Error(), "cosign"
+	}
+	var log []call
+	n1, err := note.Open(msg1, verifiers(v1, &log))
+	if err != nil {
+		var une *note.UnverifiedNoteError
+		if !errors.As(err, &une) {
+			return "", "cosign:first-open-failed"
+		}
+		n1 = une.Note
+	}
+	existing := append(sigList(n1.Sigs), sigList(n1.UnverifiedSigs)...)
+	msg2, err := note.Sign(n1, ss2...)
+	if err != nil {
+		return "second Sign failed: " + err.Error(), "cosign"
+	}
+	gotText, gotSigs, ok := refParse(string(msg2))
+	if !ok || gotText != text {
+		return fmt.Sprintf("co-signed message is malformed or carries another text: %q", msg2), "cosign"
+	}
+	replaced := map[string]bool{}
+	for _, sg := range ss2 {
+		replaced[fmt.Sprintf("%s/%08x", sg.Name(), sg.KeyHash())] = true
+	}
+	var want []string
+	for i, e := range append(append([]note.Signature(nil), n1.Sigs...), n1.UnverifiedSigs...) {
+		if !replaced[fmt.Sprintf("%s/%08x", e.Name, e.Hash)] {
+			want = append(want, existing[i])
+		}
+	}
+	var got []string
+	for _, g := range gotSigs {
+		got = append(got, sigStr(g.name, g.hash, g.b64))
+	}
+	if len(got) != len(want)+len(ss2) || !eq(got[:len(want)], want) {
+		return fmt.Sprintf("co-signing with %v a note that carries %v: signature lines %v; documented: the existing ones except those of the same key (%v), then the new ones", s2, existing, got, want), "cosign"
+	}
+	for i, sg := range ss2 {
+		g := gotSigs[len(want)+i]
+		if g.name != sg.Name() || g.hash != sg.KeyHash() {
+			return fmt.Sprintf("new signature %d is by %s/%08x, signer is %s/%08x", i, g.name, g.hash, sg.Name(), sg.KeyHash()), "cosign"
+		}
+	}
+	if m, class := openCase(string(msg2), v2); m != "" {
+		return "co-signed message: " + m, "cosign:" + class
+	}
+	return "", "cosign:ok"
+}
+
 // keyBinding mutates every byte of an encoded verifier key and signer key: NewVerifier/NewSigner must
 // refuse, or return an object whose name and hash still satisfy hash == SHA-256(name "\n" key)[:4].
 func keyBinding(r *fw.Run) {
@@ -651,6 +713,36 @@ func Run(r *fw.Run) {
 		r.Merge(l)
 	})
 
+	// (a2) co-signing: every ordered pair of non-empty signer lists over k1, k2, k3 (k3 shares k1's name)
+	{
+		l := fw.NewLocal()
+		lists := [][]string{{"k1"}, {"k2"}, {"k3"}, {"k1", "k2"}, {"k2", "k1"}, {"k1", "k3"}, {"k3", "k1"}, {"k2", "k3"}, {"k3", "k2"}, {"k1", "k2", "k3"}}
+		vsets := [][]string{{}, {"k1"}, {"k3"}, {"k2"}, {"k1", "k2", "k3"}}
+		for _, text := range []string{"a\n", "a\n\nb\n", "\n"} {
+			for _, s1 := range lists {
+				for _, s2 := range lists {
+					for _, v1 := range vsets {
+						for _, v2 := range vsets {
+							l.States++
+							l.Execs += 4
+							l.Transitions++
+							msg, class := coSign(text, s1, s2, v1, v2)
+							l.Outcomes[class]++
+							if class == "cosign:ok" {
+								l.Nontrivial++
+							}
+							if msg != "" {
+								c := caseT{Kind: "cosign", Text: strconv.QuoteToASCII(text), Signers: append(append(append([]string{}, s1...), "then"), s2...), Verifiers: append(append(append([]string{}, v1...), "then"), v2...)}
+								r.Violation(c.key(), msg, c)
+							}
+						}
+					}
+				}
+			}
+		}
+		r.Merge(l)
+	}
+
 	// (b2) key strings: the key hash binds name and key; altered key strings are refused
 	keyBinding(r)
 
@@ -751,6 +843,23 @@ func Replay(r *fw.Run, raw json.RawMessage) {
 	r.Execs.Add(1)
 	r.Sample(c)
 	var msg string
+	if c.Kind == "cosign" {
+		split := func(x []string) (a, b []string) {
+			for i, e := range x {
+				if e == "then" {
+					return x[:i], x[i+1:]
+				}
+			}
+			return x, nil
+		}
+		s1, s2 := split(c.Signers)
+		v1, v2 := split(c.Verifiers)
+		text, _ := strconv.Unquote(c.Text)
+		if msg, _ := coSign(text, s1, s2, v1, v2); msg != "" {
+			r.Violation(c.key(), msg, c)
+		}
+		return
+	}
 	if c.Kind == "sign-open" {
 		msg, _ = signOpen(t, c.Signers, c.Verifiers)
 	} else {
